@@ -105,6 +105,11 @@ def rsa_plan(q):
     # the small key: DigestInfo / salt that do not fit
     for hn in B.V15_HASHES:
         plan.append((0.05, ("v15", "rsa512e65537", hn, ["asc33"], ["sig"] if hn == "sha256" else [], keys[0])))
+    # the smallest legal modulus of every hash (k = tLen + 11), one octet less and one more
+    for hn in B.V15_HASHES:
+        kmin = RSA.v15_min_k(hn)
+        for k in (kmin - 1, kmin, kmin + 1):
+            plan.append((0.05, ("v15", "rsaK%d" % k, hn, ["asc33", "empty"], ["sig"] if hn in ("sha256", "md5", "sha512") else [], keys[0])))
     for cfg in (("sha256", None, None), ("sha256", None, "max"), ("sha256", None, "max+1"), ("sha512", None, None),
                 ("sha512", None, 0), ("sha384", None, None), ("sha384", None, "max"), ("sha1", None, None)):
         plan.append((0.3, ("pss", "rsa512e65537", cfg, ["asc33"], ["sig", "forge"], keys[0])))
